@@ -111,11 +111,21 @@ func batchMain(args []string) {
 	defer w.Flush()
 	pl := buildPools(c, *tier)
 
+	deadlockEmit = func(r *RunResult) {
+		r.Tier = *tier
+		emit(w, r, true)
+		fmt.Fprintf(w, "{\"stopped_after_seed\":%d}\n", r.Seed)
+		w.Flush()
+	}
+	if v := os.Getenv("SIM_DEADLOCK_SAMPLES"); v != "" {
+		simrt.DeadlockSamples, _ = strconv.Atoi(v)
+	}
 	runOne := func(sp *RunSpec, dec *Decisions, verbose bool) *RunResult {
 		before, _ := raceLogSize(*racelog)
 		r := execRun(c, rc, sp, dec)
 		r.PrefixSeeds = prefixSeeds
 		r.Tier = *tier
+		r.TZ = os.Getenv("TZ")
 		if *racelog != "" {
 			after, name := raceLogSize(*racelog)
 			if after > before {
